@@ -30,6 +30,7 @@ def run(report, db, tier):
     containment(report, db, S, M)
     chain(report, db, S, M)
     registration(report, db, S, M)
+    deferred_write_error(report, db, S, M)
     # the reactor's handler goes first (R14.0) and may claim an exception:
     # the only one that does claims exactly EOFError during the status probe
     from .. import shared
@@ -64,6 +65,87 @@ def run(report, db, tier):
            "a connection begun meanwhile is not the one closed (C16's rule)",
            lambda rid, c: c.startswith('dispatch:'),
            lambda sub: c16.r8(sub, db, cg, M, S))
+
+
+def deferred_write_error(report, db, S, M):
+    """The write phase of the thread's cycle catches an I/O error (also one
+    an outgoing listener raised) and keeps it while the cycle reads; it must
+    come out again.  On the path summaries of one cycle of _run: a path on
+    which the handler was taken either raises, or has found the kept
+    exception cleared -- and the only thing that clears it is a disconnect
+    packet."""
+    R = report.rule('R14.9', 'an exception caught in the write phase of the '
+                    'networking cycle is re-raised at the end of that cycle '
+                    '(unless a disconnect packet explains it): it is never '
+                    'dropped, so it ends the thread and is dispatched')
+    run_ = M.method(M.thread, '_run')
+    paths = S.run(run_)
+    cycles = []
+    for p in paths:
+        for e in p.events:
+            if e.kind == 'loop' and not any(c is e.node for c, _ in cycles):
+                cycles.append((e.node, e))
+    n = 0
+    dropped = cleared = None
+    for node, lp in cycles:
+        for q in lp.paths:
+            hs = [nt for nt in q.notes if nt[0] == 'caught' and
+                  isinstance(nt[1], ast.ExceptHandler)]
+            hs = [nt for nt in hs if any(
+                isinstance(x, ast.Call) and ast.unparse(x.func) ==
+                'sys.exc_info' for b in nt[1].body for x in ast.walk(b))]
+            if not hs:
+                continue
+            n += 1
+            kept = {}       # phi term -> loop whose entry value is exc_info()
+            direct = set()
+            for ev in q.flat(('loop',)):
+                for name, pre in (ev.pre or {}).items():
+                    if is_exc_info_call(pre) and name in (ev.phis or {}):
+                        kept[struct(ev.phis[name])] = (ev, name)
+            for v in q.env.values():
+                if is_exc_info_call(v):
+                    direct.add(struct(v))
+            # loop-carried copies after the reading loop: the phi that
+            # leaves the loop is a fresh one; match by name
+            names = set(nm for _, nm in kept.values())
+            if q.outcome[0] == 'raise':
+                continue
+            consulted = None
+            for a, pol, _ in q.conds:
+                if a[1] == 'is' and a[2][1] == ('const', None):
+                    t = a[2][0]
+                    if struct(t) in direct or (
+                            t[0] == 'phi' and t[1] in names):
+                        consulted = pol
+            if consulted is not True:
+                dropped = (q, hs[0][1])
+            for ev, name in kept.values():
+                for r in ev.paths:
+                    if r.env.get(name) == ('const', None) and not any(
+                            a[1] == '==' and ('const', 'disconnect') in a[2]
+                            and pol for a, pol, _ in r.conds):
+                        cleared = (r, ev.node)
+    if not n:
+        raise AnalysisError('_run: no path keeps a write-phase exception '
+                            '(sys.exc_info() in a handler)', run_.node,
+                            rel(run_.path))
+    if dropped:
+        q, h = dropped
+        report.violation(R, 'deferred:dropped', run_.path, h, run_.qualname,
+                         'the exception caught here is dropped when [%s]: '
+                         'the cycle ends without re-raising it, so the '
+                         'thread goes on, no handler is called and nothing '
+                         'is recorded' % q.cond_text()[:200])
+    elif cleared:
+        r, nd = cleared
+        report.violation(R, 'deferred:cleared', run_.path, nd, run_.qualname,
+                         'the kept exception is cleared when [%s], not only '
+                         'after a disconnect packet' % r.cond_text()[:160])
+    else:
+        report.ok(R, 'every cycle that caught a write error re-raises it or '
+                  'has seen a disconnect packet (%d paths)' % n)
+    report.floor('cycle paths that keep a write-phase exception', n, 4)
 
 
 def _s1(db, cg, M):
